@@ -39,8 +39,9 @@ Definition Pexclude (f l : nat) (s : asg) : Prop := ntrue (col s f l 0 (T fb)) =
 Definition pins (i : Z) (f : nat) (wb : option geometry) : list nat :=
   match get_trial_numbers fb f i wb with Some ps => ps | None => [] end.
 
+(** every pinned trial has the level (in particular the factor has a level there) *)
 Definition Ppin (i : Z) (f l : nat) (wb : option geometry) (s : asg) : Prop :=
-  pins i f wb <> [] /\ Forall (fun p => bit s p f l = true) (pins i f wb).
+  pins i f wb <> [] /\ Forall (fun p => lappl fb f p = true /\ bit s p f l = true) (pins i f wb).
 
 (** * Variables of the grid are in 1..G *)
 Lemma gvar_le t f l : t < T fb -> isact fb f = true -> l < nlevels fb f -> lappl fb f t = true ->
@@ -185,15 +186,73 @@ Proof.
   now rewrite lit_true_pos by (unfold zn; lia).
 Qed.
 
-Lemma pins_bound i f wb rs :
-  geometry_sustain fb wb f = 1 -> map_block_trial_ranges fb wb = Some rs ->
-  Forall (fun p => p < T fb) (pins i f wb).
+Lemma pin_guard i f l wb :
+  constraint_f1 fb (FPin i f l wb) = true ->
+  isact fb f = true /\ l < nlevels fb f /\ (1 <= GZ)%Z /\
+  exists ps, get_trial_numbers fb f i wb = Some ps /\ Forall (fun p => p < T fb) ps.
 Proof.
-  intros Hs Ers. unfold pins. rewrite (f1_trial_numbers fb f i wb rs Hs Ers).
-  pose proof (f1_ranges_bound fb wb rs Ers) as Hb.
-  apply Forall_flat_map. apply Forall_forall. intros r Hr. pose proof (proj1 (Forall_forall _ _) Hb r Hr) as [_ Hr2].
-  cbv zeta. destruct (_ && _)%bool eqn:Eb; [|constructor]. constructor; [|constructor].
-  apply andb_true_iff in Eb. destruct Eb as [E1 E2]. apply Z.leb_le in E1. apply Z.ltb_lt in E2. lia.
+  cbn [constraint_f1]. rewrite !andb_true_iff. intros [[[[[Hf Hl] Hv] _] _] Hp]. apply Nat.ltb_lt in Hl, Hv.
+  split; [exact Hf|]. split; [exact Hl|]. split; [unfold GZ; rewrite <- (f1_vps fb HF1); unfold zn; lia|].
+  destruct (get_trial_numbers fb f i wb) as [ps|]; [|discriminate]. exists ps. split; [reflexivity|].
+  rewrite forallb_forall in Hp. apply Forall_forall. intros p Hin. now apply Nat.ltb_lt, Hp.
+Qed.
+
+Lemma pin_guard_geom i f l wb :
+  constraint_f1 fb (FPin i f l wb) = true ->
+  0 < geometry_sustain fb wb f /\ exists rs, map_block_trial_ranges fb wb = Some rs.
+Proof.
+  cbn [constraint_f1]. rewrite !andb_true_iff. intros [[[_ Hg] Hs] _]. apply Nat.ltb_lt in Hs.
+  split; [exact Hs|now apply geom_ok_some].
+Qed.
+
+(** the pinned trials: per range the [su] trials from the pinned position on *)
+Definition pin_pos (i : Z) (su : nat) (r : nat * nat) : Z :=
+  (if (i <? 0)%Z then Z.of_nat (snd r) + Z.of_nat su * i else Z.of_nat (fst r) + Z.of_nat su * i)%Z.
+Definition pin_in (i : Z) (su : nat) (r : nat * nat) : bool :=
+  ((Z.of_nat (fst r) <=? pin_pos i su r) && (pin_pos i su r <? Z.of_nat (snd r)))%Z.
+
+Lemma pins_eq i f wb rs :
+  map_block_trial_ranges fb wb = Some rs ->
+  get_trial_numbers fb f i wb =
+  Some (flat_map (fun r => if pin_in i (geometry_sustain fb wb f) r
+                           then map (fun j => Z.to_nat (pin_pos i (geometry_sustain fb wb f) r) + j) (seq 0 (geometry_sustain fb wb f))
+                           else []) rs).
+Proof. intros Hrs. unfold get_trial_numbers. rewrite Hrs. reflexivity. Qed.
+
+(** the clauses of one pinned trial *)
+Definition pin_clauses (f l t : nat) : list (list Z) :=
+  if lappl fb f t then [[zn (gvar fb t f l)]] else [[1%Z]; [(-1)%Z]].
+
+Lemma pin_cmapM f l ps : isact fb f = true -> l < nlevels fb f ->
+  cmapM (fun t => if negb (applies_at fb f (t + 1)) then COk [[1%Z]; [(-1)%Z]]
+                  else v <~ get_variable fb (t + 1) f l ;; COk [[zn v]]) ps
+  = COk (map (pin_clauses f l) ps).
+Proof.
+  intros Hf Hl. induction ps as [|a ps IH]; [reflexivity|]. cbn [cmapM map].
+  rewrite Nat.add_1_r. change (applies_at fb f (S a)) with (lappl fb f a). unfold pin_clauses at 1.
+  destruct (lappl fb f a); cbn [negb].
+  - rewrite (f1_get_variable fb HF1 f l a Hf Hl). cbn [cbind].
+    replace (a + 1) with (S a) in IH. 2:{ lia. }
+    assert (IH' : cmapM (fun t => if negb (applies_at fb f (t + 1)) then COk [[1%Z]; [(-1)%Z]]
+                                  else v <~ get_variable fb (t + 1) f l ;; COk [[zn v]]) ps
+                  = COk (map (pin_clauses f l) ps)) by exact IH.
+    rewrite IH'. reflexivity.
+  - cbn [cbind]. rewrite IH. reflexivity.
+Qed.
+
+Lemma sat_unsat_pair s : sat s [[1%Z]; [(-1)%Z]] = false.
+Proof. unfold sat, csat, lit_true. cbn. destruct (s 1%Z); reflexivity. Qed.
+
+Lemma sat_pin_clauses s f l ps : Forall (fun p => p < T fb) ps ->
+  (sat s (concat (map (pin_clauses f l) ps)) = true <-> Forall (fun p => lappl fb f p = true /\ bit s p f l = true) ps).
+Proof.
+  intros Hb. induction Hb as [|p ps Hp _ IH]; [cbn; split; constructor|].
+  cbn [map concat]. unfold sat in *. rewrite forallb_app, andb_true_iff, IH, Forall_cons_iff.
+  unfold pin_clauses. destruct (lappl fb f p).
+  - cbn [forallb csat existsb]. rewrite andb_true_r, orb_false_r.
+    rewrite lit_true_pos by (pose proof (gvar_pos fb p f l); unfold zn; lia). unfold bit. tauto.
+  - change (forallb (csat s) [[1%Z]; [(-1)%Z]]) with (sat s [[1%Z]; [(-1)%Z]]). rewrite sat_unsat_pair.
+    split; [intros [H _]; discriminate|intros [[H _] _]; discriminate].
 Qed.
 
 Lemma step_pin i f l wb :
@@ -201,50 +260,29 @@ Lemma step_pin i f l wb :
   forall fresh ct, (GZ < fresh)%Z -> apply_constraint fb (FPin i f l wb) fresh = COk ct ->
   exists ext, DefinesA (fresh - 1) (ct_fresh ct - 1) (ct_clauses ct) (ct_requests ct) ext (Ppin i f l wb).
 Proof.
-  intros Hc fresh ct Hfr E. cbn [constraint_f1] in Hc. rewrite !andb_true_iff in Hc.
-  destruct Hc as [[[[Hf Hcx] Hl] Hg] Hs]. apply Nat.ltb_lt in Hl. apply Nat.eqb_eq in Hs. apply negb_true_iff in Hcx.
-  assert (Hap : forall t, lappl fb f t = true) by (intros t; now apply (lappl_simple fb HF1)).
-  destruct (geom_ok_some wb Hg) as [rs Ers].
-  pose proof (pins_bound i f wb rs Hs Ers) as Hpb.
+  intros Hc fresh ct Hfr E. destruct (pin_guard i f l wb Hc) as (Hf & Hl & HG1 & ps & Ep & Hpb).
   assert (HGZ : (0 <= GZ)%Z) by (unfold GZ, zn; lia).
-  assert (HG1 : (1 <= GZ)%Z).
-  { pose proof (gvar_range fb HF1 0 f l HT Hf Hl (Hap 0)). unfold GZ, zn. lia. }
-  cbn [apply_constraint] in E. unfold apply_pin in E. unfold Ppin, pins in *.
-  destruct (get_trial_numbers fb f i wb) as [ps|] eqn:Ep.
-  2:{ rewrite (f1_trial_numbers fb f i wb rs Hs Ers) in Ep. discriminate. }
-  destruct ps as [|p ps].
+  cbn [apply_constraint] in E. unfold apply_pin in E. unfold Ppin, pins. rewrite Ep in E |- *.
+  destruct ps as [|p ps'].
   - inversion E. subst ct. clear E. cbn [ct_fresh ct_clauses ct_requests]. exists (fun s => s).
     eapply definesA_conseq.
     + apply (definesA_clauses (fresh - 1) [[1%Z]; [(-1)%Z]]); [lia|].
-      intros c x Hc Hx. destruct Hc as [<-|[<-|[]]]; destruct Hx as [<-|[]]; lia.
-    + intros s. unfold sat, csat, lit_true. cbn.
-      split; [destruct (s 1%Z); discriminate|intros [H _]; now contradiction H].
-  - remember (p :: ps) as pl eqn:Epl.
-    assert (Evars : cmapM (fun t => if negb (applies_at fb f (t + 1)) then COk [[1%Z]; [(-1)%Z]]
-                                    else v <~ get_variable fb (t + 1) f l ;; COk [[zn v]]) pl
-                    = COk (map (fun t => [[zn (gvar fb t f l)]]) pl)).
-    { clear -HF1 Hf Hl Hap. induction pl as [|a pl IH]; [reflexivity|]. cbn [cmapM map].
-      rewrite Nat.add_1_r. change (applies_at fb f (S a)) with (lappl fb f a). rewrite (Hap a). cbn [negb].
-      rewrite <- (Nat.add_1_r a).
-      rewrite Nat.add_1_r, (f1_get_variable fb HF1 f l a Hf Hl). cbn [cbind].
-      rewrite IH. reflexivity. }
-    rewrite Evars in E. cbn [cbind] in E.
-    assert (Econc : concat (map (fun t => [[zn (gvar fb t f l)]]) pl) = map (fun v => [zn v]) (map (fun t => gvar fb t f l) pl)).
-    { clear. induction pl as [|a pl IH]; [reflexivity|]. cbn [map concat app]. now rewrite IH. }
-    rewrite Econc in E. inversion E. subst ct. clear E.
+      intros c x Hc' Hx. destruct Hc' as [<-|[<-|[]]]; destruct Hx as [<-|[]]; lia.
+    + intros s. cbv beta. rewrite (sat_unsat_pair s). split; [discriminate|intros [H _]; now contradiction H].
+  - remember (p :: ps') as pl eqn:Epl.
+    rewrite (pin_cmapM f l pl Hf Hl) in E. cbn [cbind] in E. inversion E. subst ct. clear E.
     cbn [ct_fresh ct_clauses ct_requests]. exists (fun s => s).
-    assert (Hv : Forall (fun v => 0 < v /\ (zn v <= fresh - 1)%Z) (map (fun t => gvar fb t f l) pl)).
-    { apply Forall_map. eapply Forall_impl; [|exact Hpb]. intros t Ht. split; [apply gvar_pos|].
-      pose proof (gvar_le t f l Ht Hf Hl (Hap t)). lia. }
     eapply definesA_conseq.
-    + apply definesA_clauses; [lia|]. rewrite map_map.
-      intros c x Hc Hx. apply in_map_iff in Hc. destruct Hc as (t & <- & Ht). destruct Hx as [<-|[]].
-      destruct (proj1 (Forall_forall _ _) Hv (gvar fb t f l)) as [A B]; [exact (in_map (fun t => gvar fb t f l) pl t Ht)|]. unfold zn in *. lia.
-    + intros s. rewrite map_map.
-      change (map (fun x => [zn (gvar fb x f l)]) pl) with (map (fun x => (fun v => [zn v]) (gvar fb x f l)) pl).
-      rewrite <- (map_map (fun t => gvar fb t f l) (fun v => [zn v])), sat_pos_units.
-      * rewrite Forall_map. split; [intros H; split; [subst pl; discriminate|exact H]|tauto].
-      * eapply Forall_impl; [|exact Hv]. intros a [Ha _]. exact Ha.
+    + apply definesA_clauses; [lia|].
+      intros c x Hc' Hx. apply in_concat in Hc'. destruct Hc' as (cl & Hcl & Hc').
+      apply in_map_iff in Hcl. destruct Hcl as (t & <- & Ht). unfold pin_clauses in Hc'.
+      pose proof (proj1 (Forall_forall _ _) Hpb t Ht) as HtT. cbv beta in HtT.
+      destruct (lappl fb f t) eqn:Hap.
+      * destruct Hc' as [<-|[]]. destruct Hx as [<-|[]].
+        pose proof (gvar_pos fb t f l). pose proof (gvar_le t f l HtT Hf Hl Hap). unfold zn in *. lia.
+      * destruct Hc' as [<-|[<-|[]]]; destruct Hx as [<-|[]]; lia.
+    + intros s. rewrite (sat_pin_clauses s f l pl Hpb).
+      split; [intros H; split; [subst pl; discriminate|exact H]|tauto].
 Qed.
 
 (** * Consistency *)
